@@ -65,6 +65,14 @@ def corpus_cases(which):
     out.append(fs1([("iface", "ISession", None, [M("open"), M("release"), M("read"), M("retain"), M("close")]),
                     ("iface", "ISecure", "ISession", [M("attest"), M("invoke"), M("rekey")]),
                     ("iface", "ITop", "ISecure", [M("last")])]))
+    # one interface declared twice with different members, in two files of the same name in different
+    # directories, both reached: there is no single numbering of it - the file set is refused
+    for order in (["common/IBase.idl", "mid.idl"], ["mid.idl", "common/IBase.idl"]):
+        out.append({"files": [{"path": "main.idl", "includes": order, "decls": [("iface", "IApp", "IBase", [E("APP_FAIL"), M("run")])]},
+                              {"path": "mid.idl", "includes": ["vendor/IBase.idl"], "decls": [("const", "uint32", "MID", "3")]},
+                              {"path": "common/IBase.idl", "includes": [], "decls": [("iface", "IBase", None, [E("NOT_FOUND"), E("BUSY"), M("ping"), M("pong")])]},
+                              {"path": "vendor/IBase.idl", "includes": [], "decls": [("iface", "IBase", None, [E("NOT_FOUND"), E("DENIED"), E("BUSY"), M("early"), M("ping"), M("pong")])]}],
+                    "main": "main.idl", "idirs": [], "must_reject": "the same interface is declared twice with different members"})
     # a name of a non-immediate ancestor declared again (method, error, constant), distance 2..4
     for dist in (2, 3, 4):
         for kind in ("method", "error", "const"):
@@ -337,6 +345,10 @@ def run(ctx):
                 res["failures"].append({"property": prop, "big_split": split, "harness": (h or {}).get("result"), "exit_codes": bins,
                                         "how_to_build": "one file: interface IB0 with split[0] methods m0_<i>(), IB1 : IB0 with split[1] methods m1_<i>(), ...",
                                         "what": "a chain of interfaces with %s methods (%d in total, limit 16384 = op-codes 0..0x3FFF) is %s" % (split, sum(split), "accepted" if got else "rejected")})
+            continue
+        if fs.get("must_reject") and h is not None and h.get("result") == "ok":
+            res["failures"].append({"property": prop, "fileset": fs, "text": {f["path"]: gen.render_file(f) for f in fs["files"]},
+                                    "what": "accepted although %s (each copy numbers its members differently)" % fs["must_reject"]})
             continue
         if h is None or "files" not in h:
             # rejected before the include pass finished: nothing to compare at the MIR level
